@@ -146,6 +146,8 @@ pub fn mutants() -> Vec<CfgCase> {
 			("period-overflow", json!("18446744073709551615w")),
 			("period-sum-overflow", json!("18446744073709551615s1s")),
 			("unicode", json!("ümlaut.例え.test")),
+			// characters whose lower-case form has another length in UTF-8 (Kelvin sign, dotted capital I, capital sharp s, ...)
+			("unicode-case-changes-length", json!("\u{212a}elvin.\u{130}stanbul.stra\u{1e9e}e.\u{23a}.example")),
 			// long texts of 2-, 3- and 4-byte characters behind 0..1 ASCII characters: wherever a message that quotes the value is cut,
 			// the cut falls inside a character for one of them
 			("long-2-byte", json!("\u{e9}".repeat(1500))),
